@@ -25,7 +25,7 @@ theorem ridgeSegment_eq (spherical : Bool) (nat : P3 R) (check other s0 s1 : P2 
     (acc : RidgeAcc R) :
     ridgeSegment spherical nat check other s0 s1 v0 v1 sub0 sub1 first acc =
       (let t1 := segClosest s0 s1 v0 v1 sub0 sub1 sub1 check
-       let t2 := segClosest s0 s1 v0 v1 sub0 sub1 v1 other
+       let t2 := segClosest s0 s1 v0 v1 sub0 sub1 sub1 other
        let dc := depthCoordinate spherical nat
        let cmp1 : P3 R := if spherical then ⟨dc, t1.1.x, t1.1.y⟩ else ⟨t1.1.x, t1.1.y, dc⟩
        let cmp2 : P3 R := if spherical then ⟨dc, t2.1.x, t2.1.y⟩ else ⟨t2.1.x, t2.1.y, dc⟩
